@@ -49,7 +49,8 @@ func envHole(name string, n int) string {
 func EnvPrecedence() {
 	nvars := sym.ParamInt("vars", 2)
 	nambient := sym.ParamInt("ambient", 1)
-	names := []string{"AA", "B", "CCC"}[:nvars]
+	// one name is a proper prefix of another: a lookup that matched "A" against "AA=..." would show
+	names := []string{"AA", "A", "B"}[:nvars]
 	values := make([]string, nvars)
 	var spokEnv []string
 	for i, n := range names {
